@@ -101,19 +101,38 @@ func checkC01(e *Engine, r *Report) {
 		}
 		dual := e.objs(pkgTA, "Supply."+t.method, "supply."+t.method)
 		// subtree: DepthFirst with a closure that calls FreeSupply().<method>(cg)
-		okSub := false
+		okSub, whySub := false, ""
+		isSame := e.objs(pkgTA, "Node.IsSameNode", "node.IsSameNode")
+		otherNode := func(cond ssa.Value) (bool, bool) { // the visited node is not the granting one
+			neg := false
+			if u, ok := cond.(*ssa.UnOp); ok && u.Op == token.NOT {
+				cond, neg = u.X, true
+			}
+			if c, ok := cond.(*ssa.Call); ok && isCallOfObj(c, isSame) {
+				return true, neg
+			}
+			return false, false
+		}
 		for _, c := range allCallsOfObj(fn, depthFirst) {
 			for _, cl := range e.funcValues(callArgs(c)[1], 0) {
 				for _, dc := range allCallsOfObj(cl, dual) {
 					if rc, ok := callArgs(dc)[0].(*ssa.Call); ok && isCallOfObj(rc, freeSupply) && paramIndex(callArgs(rc)[0]) == 0 {
 						okSub = true
+						// not merely present: the walk itself is unavoidable, and for a node other than the granting one so is the call
+						if sp := e.skippedOnSuccess(fn, c); sp != nil {
+							okSub, whySub = false, "the subtree walk can be skipped: "+e.pathString(sp)
+						}
+						dcI := ssa.Instruction(dc)
+						if sp := FindPath(PathQuery{Fn: cl, Assume: otherNode, Block: func(x ssa.Instruction) bool { return x == dcI }, Target: func(x ssa.Instruction) bool { _, ok := x.(*ssa.Return); return ok }}); sp != nil {
+							okSub, whySub = false, "a node of the subtree can be passed over: "+e.pathString(sp)
+						}
 					}
 				}
 			}
 		}
-		r.Check("R6:propagate-subtree@"+t.fn, "R6+R1 propagation", t.fn+" applies Supply."+t.method+" to the free supply of every node of the grant's subtree (DepthFirst)", e.Pos(fn.Pos()), fn, okSub, "", true)
+		r.Check("R6:propagate-subtree@"+t.fn, "R6+R1 propagation", t.fn+" applies Supply."+t.method+" to the free supply of every node of the grant's subtree (DepthFirst), on every path", e.Pos(fn.Pos()), fn, okSub, whySub, true)
 		// ancestors: a loop node = Parent() … until IsNil(), calling the same method on FreeSupply()
-		okAnc := false
+		okAnc, whyAnc := false, ""
 		for _, dc := range allCallsOfObj(fn, dual) {
 			rc, ok := callArgs(dc)[0].(*ssa.Call)
 			if !ok || !isCallOfObj(rc, freeSupply) {
@@ -135,9 +154,31 @@ func checkC01(e *Engine, r *Report) {
 			}
 			if fed && guarded {
 				okAnc = true
+				// every round of the walk applies it: from the IsNil() test (not nil) no path reaches the next Parent() without the call
+				dcI := ssa.Instruction(dc)
+				notNil := func(cond ssa.Value) (bool, bool) {
+					neg := false
+					if u, ok := cond.(*ssa.UnOp); ok && u.Op == token.NOT {
+						cond, neg = u.X, true
+					}
+					if c, ok := cond.(*ssa.Call); ok && isCallOfObj(c, isNil) {
+						return true, neg
+					}
+					return false, false
+				}
+				for _, cf := range dominatingConds(dc.Block()) {
+					c2, ok := cf.Cond.(*ssa.Call)
+					if !ok || !isCallOfObj(c2, isNil) {
+						continue
+					}
+					if sp := FindPath(PathQuery{Fn: fn, From: c2, Assume: notNil, Block: func(x ssa.Instruction) bool { return x == dcI },
+						Target: func(x ssa.Instruction) bool { c3, ok := x.(*ssa.Call); return ok && isCallOfObj(c3, parent) }}); sp != nil {
+						okAnc, whyAnc = false, "an ancestor can be passed over: "+e.pathString(sp)
+					}
+				}
 			}
 		}
-		r.Check("R6:propagate-ancestors@"+t.fn, "R6+R1 propagation", t.fn+" applies Supply."+t.method+" to every ancestor (Parent() until IsNil())", e.Pos(fn.Pos()), fn, okAnc, "", true)
+		r.Check("R6:propagate-ancestors@"+t.fn, "R6+R1 propagation", t.fn+" applies Supply."+t.method+" to every ancestor (Parent() until IsNil())", e.Pos(fn.Pos()), fn, okAnc, whyAnc, true)
 		// no other supply method is applied (dual agreement)
 		otherName := map[string]string{"AccountAllocateCPU": "AccountReleaseCPU", "AccountReleaseCPU": "AccountAllocateCPU"}[t.method]
 		other := e.objs(pkgTA, "Supply."+otherName, "supply."+otherName)
